@@ -87,7 +87,7 @@ def run(chk, replay=None):
 def run_rt(chk, replay, oracle, prop):
     gate, hb = core.std_setup(chk)
     rng = random.Random(chk.seed)
-    n = 3000 if chk.tier == "quick" else 60000
+    n = 3000 if chk.tier == "quick" else 400000
     cases = gen_cases(rng, n) if replay is None else [replay["case"]]
     chk.cov["rule"] = ("rt cases: protocol x buffer kind x 1-3 generated value trees (depth<=6, boundary ints, "
                        "field ids around short/long-form and i16 limits, sizes around 14/15 and the 4096 zero-copy "
